@@ -120,7 +120,7 @@ def same(a, b):
     return diff(a, b) is None
 
 
-def shares_container(a, b, _seen=None):
+def shares_container(a, b, stop_ids=frozenset()):
     """True iff a and b share a *mutable or non-singleton* container object (not leaves).
 
     Used for the "identity map builds new containers" clause.  ``()`` and ``None`` are exempt.
@@ -129,7 +129,7 @@ def shares_container(a, b, _seen=None):
 
     def walk(x, acc):
         t = type(x)
-        if x is None or (t is tuple and len(x) == 0):
+        if x is None or (t is tuple and len(x) == 0) or id(x) in stop_ids:
             return
         if t in (tuple, list, deque, dict, OrderedDict, defaultdict) or hasattr(t, '_same_parts') or (
             issubclass(t, tuple) and (_is_nt(t) or _is_ss(t))
